@@ -125,6 +125,11 @@ def run(chk, repo: Repo):
     for mod, cls, fname, kind in SITES:
         ci = repo.cls(f"{mod}:{cls}")
         fn = repo.method(ci, fname)[1]
+        if not any(isinstance(n_, ast.FunctionDef) and n_.name == "M" for n_ in ast.walk(fn)):
+            # the set-up may have been split off into a private method: the function that defines the closure M is the anchor
+            cands = [f_ for f_ in ci.methods.values() if any(isinstance(n_, ast.FunctionDef) and n_.name == "M" for n_ in ast.walk(f_))]
+            if len(cands) == 1:
+                fn = cands[0]
         if kind == "rto":
             _rto(chk, repo, ci, fn)
         else:
@@ -428,9 +433,23 @@ def _r3(chk, repo):
         ("cuqi/sampler/_rto.py:RegularizedLinearRTO", "_sample", "self.b_tild", "FISTA(self.M,$y,$ch[:,$s],self.proximal,maxit=self.maxit,stepsize=$st,abstol=self.abstol,adaptive=self.adaptive)", "$ch[:,$s+1]"),
         ("cuqi/sampler/_laplace_approximation.py:UGLA", "_sample", "self._b_tild", "CGLS($M,$y,$ch[:,$s],self.maxit,self.tol,self._shift)", "$ch[:,$s+1]"),
     ]
+    # solver constructors in all-keyword form (positional / keyword spelling and omitted defaults do not distinguish two calls), in the statements
+    # and in the patterns alike
+    from .common import KwCanon
+    from ..canon import clone as _clone, set_parents as _sp
+    from ..pattern import norm as pn
+    kcs = KwCanon()
+    for sname in ("CGLS", "FISTA"):
+        kcs.add(sname, repo.method(repo.cls(f"cuqi/solver/_solver.py:{sname}"), "__init__")[1])
+
+    def kwpat(ptxt):
+        e = kcs.visit(ast.parse(ptxt.replace("$", "__mv_"), mode="eval").body)
+        return ast.unparse(e).replace("__mv_", "$")
     for spec, fname, bt, ctor, state in specs:
+        ctor = kwpat(ctor)
         ci = repo.cls(spec)
-        fn = repo.method(ci, fname)[1]
+        fn = _sp(kcs.visit(_clone(repo.method(ci, fname)[1])))
+        fn._rel = ci.module.rel
         region = fn
         loops = [s_ for s_ in fn.body if isinstance(s_, ast.For)]
         if loops:
